@@ -43,6 +43,10 @@ def script_text(sc):
     return show_program(sc[0])
 
 
+# 'fresh': every case gets a new engine; 'cleared': an engine that was used and then cleared
+ENGINE = {'mode': 'fresh'}
+
+
 class Case:
     """one differential case.  scripts: [(clauses, overwrite, shared)], facts: [(term, append)],
     queries: [goal] (observed: all variables of the goal)"""
@@ -60,6 +64,7 @@ class Case:
         self.repeat = repeat
         self.ref_steps = ref_steps
         self.ref_depth = ref_depth
+        self.engine_mode = ENGINE['mode']
 
     def describe(self):
         d = {'scripts': [{'text': script_text(sc), 'overwrite': sc[1]} for sc in self.scripts],
@@ -72,15 +77,17 @@ class Case:
                 'facts': [[_j(t), ap] for t, ap in self.facts],
                 'queries': [_j(q) for q in self.queries],
                 'repeat': self.repeat, 'ref_steps': self.ref_steps, 'ref_depth': self.ref_depth,
-                'budget': self.budget, 'anon': list(self.anon),
+                'budget': self.budget, 'anon': list(self.anon), 'engine_mode': self.engine_mode,
                 'readable': self.describe()}
 
     @staticmethod
     def from_json(d):
-        return Case([(_t(sc[0]), sc[1], sc[2], sc[3]) for sc in d['scripts']],
-                    [(_t(t), ap) for t, ap in d['facts']],
-                    [_t(q) for q in d['queries']], d.get('repeat', 2),
-                    d.get('ref_steps', 20000), d.get('ref_depth', 60), d.get('budget', False), d.get('anon', ()))
+        c = Case([(_t(sc[0]), sc[1], sc[2], sc[3]) for sc in d['scripts']],
+                 [(_t(t), ap) for t, ap in d['facts']],
+                 [_t(q) for q in d['queries']], d.get('repeat', 2),
+                 d.get('ref_steps', 20000), d.get('ref_depth', 60), d.get('budget', False), d.get('anon', ()))
+        c.engine_mode = d.get('engine_mode', 'fresh')
+        return c
 
     def run(self):
         """-> dict(status, sig, detail, outcome, steps, nontrivial)
@@ -104,6 +111,19 @@ class Case:
             return self._viol('compile:' + impl.exc_sig(e), 'the compiler raised %r' % (e,))
         try:
             yp = impl.YP()
+            caller = yp
+            if self.engine_mode == 'cleared':
+                # an engine that was used before and cleared: a program loaded now behaves as on a new
+                # one - also for a caller that builds its queries from the Atom objects it obtained
+                # BEFORE the clear
+                yp.assert_fact(yp.atom('junk'), [yp.atom('a'), yp.ATOM_NIL])
+                for _ in yp.query('junk', [yp.variable(), yp.variable()]):
+                    pass
+                names = set(['[]'])
+                for q in self.queries:
+                    impl.atom_names(q, names)
+                caller = impl.HeldAtoms(yp, sorted(names))
+                yp.clear()
             for sc, py in zip(self.scripts, pytexts):
                 yp.load_script_from_string(py, fn=impl.SCRIPT_FN, overwrite=sc[1])
         except Exception as e:  # noqa: BLE001
@@ -146,9 +166,9 @@ class Case:
                     with watchdog():
                         if self.budget:
                             with StepBudget(2000 * ref.steps + 200000):
-                                got, istatus, exc = impl.run_query(yp, q, obs, cap=cap)
+                                got, istatus, exc = impl.run_query(caller, q, obs, cap=cap)
                         else:
-                            got, istatus, exc = impl.run_query(yp, q, obs, cap=cap)
+                            got, istatus, exc = impl.run_query(caller, q, obs, cap=cap)
                 except Exceeded as e:
                     return self._viol('query:nontermination',
                                       'query %s: %s although the reference search needs only %d steps (%s); '
